@@ -19,6 +19,7 @@ import (
 	"github.com/goblimey/go-crc24q/crc24q"
 	"github.com/goblimey/go-ntrip/jsonconfig"
 	rtcm "github.com/goblimey/go-ntrip/rtcm/handler"
+	"github.com/goblimey/go-ntrip/rtcm/utils"
 )
 
 func init() {
@@ -68,11 +69,47 @@ func c09Frame(name string, payloadLen int) []byte {
 	return append(f, byte(crc>>16), byte(crc>>8), byte(crc))
 }
 
+var c09Shape = 0
+
 // c09Input: a stream shape chosen by parameter: frames and junk runs with
 // symbolic contents.
+// c09LongShape: the shape with more than a kilobyte of input (explored under
+// the lazy and the round-robin schedule only).
+const c09LongShape = 4
+
+// c09Want: for the long shape the expected messages are built here,
+// independently of the framing code (the sequential reference would read the
+// same preloaded channel through the same code).
+var c09Want []rtcm.Message
+
 func c09Input() []byte {
 	var in []byte
-	switch verifParam("shape", 0, 3) {
+	c09Want = nil
+	switch c09Shape {
+	case c09LongShape:
+		// other data, a short frame, a frame of the maximum length with
+		// fixed contents, a short frame: 1 054 bytes, so a reader that runs
+		// ahead has more than a kilobyte waiting when the framing starts
+		j := verifBytes("j", 2)
+		verifAssume(j[0] != 0xd3)
+		verifAssume(j[1] != 0xd3)
+		a := c09Frame("a", 2)
+		long := make([]byte, 1023)
+		for i := range long {
+			long[i] = byte(i%200 + 1)
+		}
+		long[0], long[1] = 0x4c, 0xe1
+		lf := []byte{0xd3, 0x03, 0xff}
+		lf = append(lf, long...)
+		crc := crc24q.Hash(lf)
+		lf = append(lf, byte(crc>>16), byte(crc>>8), byte(crc))
+		b := c09Frame("b", 3)
+		in = append(in, j...)
+		in = append(in, a...)
+		in = append(in, lf...)
+		in = append(in, b...)
+		c09Want = []rtcm.Message{{MessageType: utils.NonRTCMMessage, RawData: j}, {MessageType: 1230, RawData: a},
+			{MessageType: 1230, RawData: lf}, {MessageType: 1230, RawData: b}}
 	case 0:
 		in = append(in, c09Frame("a", 2)...)
 	case 1:
@@ -139,10 +176,18 @@ func c09Same(a, b []rtcm.Message) bool {
 
 func VerifC09_FanOut() {
 	verifOwnPanics()
-	mode := verifParam("schedule", 0, 2) // lazy, round-robin, <= 1 preemption
+	c09Shape = verifParam("shape", 0, 4)
+	maxMode := 2
+	if c09Shape == c09LongShape {
+		maxMode = 1 // a kilobyte byte by byte: one-preemption schedules would be thousands
+	}
+	mode := verifParam("schedule", 0, maxMode) // lazy, round-robin, <= 1 preemption
 	verifSchedule(mode, 1)
 	in := c09Input()
-	want := c09Sequential(in)
+	want := c09Want
+	if want == nil {
+		want = c09Sequential(in)
+	}
 	// chunks of one byte, of two bytes with the last one reported together
 	// with io.EOF (the io.Reader contract allows both), or everything at once
 	chunk := []int{1, 2, 64}[verifParam("chunk", 0, 2)]
